@@ -20,3 +20,22 @@ OBS += [
  Ob(['C10', 'C16', 'C03'], 'spaces_nocomments', 'jd', 'harness/jd_leaf.c', 'h_spaces', defs=U + ['NB=4'], unwind=7, desc='skipSpacesAndComments (comments disabled): blanks skipped, EmptyInput vs IncompleteInput, first significant byte latched', bound='all 2^32 4-byte inputs x foundSomething', **L),
  Ob(['C16', 'C03', 'C11'], 'skipnum', 'jd', 'harness/jd_leaf.c', 'h_skipnum', defs=U + ['NB=5'], unwind=8, desc='skipNumericValue consumes the maximal run of number characters + at most one look-ahead byte', bound='all 5-byte inputs', **L),
 ]
+CONT = ['ARENA_N=3', 'ARENA_CHUNK=64', 'ARDUINOJSON_POOL_CAPACITY=4', 'ARDUINOJSON_INITIAL_POOL_COUNT=2']
+UNITS += [Unit('jd_cont', 'wrappers/jd.cpp', defs=CONT, cuts={
+    'CUT_PV_ALL': r'12parseVariantINS1_14AllowAllFilterE', 'CUT_SV': r'11skipVariantE',
+    'CUT_ADD_ELEMENT': r'9ArrayData10addElementEPNS1_15ResourceManagerE$'})]
+UC = ['UNIT_H="jd_cont.h"']
+OBS += [
+ Ob(['C01', 'C03', 'C10', 'C15', 'C16'], 'parse_array_step', 'jd_cont', 'harness/jd_cont.c', 'h_parse_array', defs=UC + ['NB=4'], unwind=7, fs='none', cap=300, hunwind=12,
+    desc='parseArray<AllowAll> one activation, children cut: code/consumed/children/limit/element order equal the reference recogniser', bound="'[' + all 2^32 continuations of 4 bytes, all limits 0..255, every child behaviour allowed by the contract (<= 4 children)"),
+ Ob(['C03', 'C10', 'C11', 'C15', 'C16'], 'skip_array_step', 'jd_cont', 'harness/jd_cont.c', 'h_skip_array', defs=UC + ['NB=4'], unwind=7, fs='none', cap=300, hunwind=12,
+    desc='skipArray one activation, children cut', bound="'[' + all continuations of 4 bytes, all limits, all child behaviours (<= 4 children)"),
+]
+OBJ = ['ARENA_N=5', 'ARENA_CHUNK=64', 'ARDUINOJSON_POOL_CAPACITY=4', 'ARDUINOJSON_INITIAL_POOL_COUNT=2']
+UNITS += [Unit('jd_obj', 'wrappers/jd.cpp', defs=OBJ, cuts={'CUT_PV_ALL': r'12parseVariantINS1_14AllowAllFilterE', 'CUT_SV': r'11skipVariantE', 'CUT_PKEY': r'JsonDeserializerI7VReaderE8parseKeyEv',
+    'CUT_COLL_CLEAR': r'14CollectionData5clearEPNS1_15ResourceManagerE$'})]
+UO = ['UNIT_H="jd_obj.h"']
+for sk, what in [(0, 'first key 3 bytes, second key 1 byte'), (1, 'first key 1 byte, second key 3 bytes'), (2, 'both keys 2 bytes'), (3, 'both keys 3 bytes')]:
+    OBS.append(Ob(['C01', 'C14'], 'dupkey_sk%d' % sk, 'jd_obj', 'harness/jd_obj.c', 'h_dupkey', defs=UO + ['SK=%d' % sk], unwind=6, cap=300, hunwind=24, fs=512,
+        desc='parseObject duplicate-key rule, %s: real ObjectData/StringPool/StringBuilder, key scanner and children cut' % what,
+        bound='ALL byte values (NUL included) for every key byte; token skeleton {K:v,K:v}; arena allocator'))
